@@ -24,6 +24,12 @@ var c08Atoms = append(append([]ora.Atom{}, ora.StdAtoms...),
 	ora.Atom{Name: "VIDd1", Gen: func(t *ora.Tok) string {
 		return "<div><video src=\"http://example.com/v/" + t.U() + ".mp4\" width=\"400\" height=\"300\"></video></div>"
 	}},
+	ora.Atom{Name: "TXTT", Gen: func(t *ora.Tok) string {
+		return "<div>" + t.W(19) + " <table><tr><th>" + t.W(1) + "</th><th>" + t.W(1) + "</th></tr><tr><td>" + t.W(1) + "</td><td>" + t.W(1) + "</td></tr></table></div>"
+	}},
+	ora.Atom{Name: "TXTI", Gen: func(t *ora.Tok) string {
+		return "<div>" + t.W(3) + " <img src=\"http://example.com/img/" + t.U() + ".jpg\" width=\"400\" height=\"300\"> " + t.W(18) + "</div>"
+	}},
 	ora.Atom{Name: "IMGsm", Gen: func(t *ora.Tok) string {
 		return "<img src=\"http://example.com/img/" + t.U() + ".jpg\" width=\"30\" height=\"20\">"
 	}},
@@ -34,7 +40,7 @@ var c08Atoms = append(append([]ora.Atom{}, ora.StdAtoms...),
 
 var (
 	c08Main   = []string{"Pc", "Ps", "Pb", "IMG", "FIG", "VID", "YT", "TBLd", "UL3"}
-	c08Nested = []string{"Pc", "Pb", "IMGd1", "IMGd3", "FIGd2", "VIDd1", "IMGsm", "IMGnd", "H"}
+	c08Nested = []string{"Pc", "Pb", "IMGd1", "IMGd3", "FIGd2", "VIDd1", "IMGsm", "IMGnd", "H", "TXTT", "TXTI"}
 )
 
 func c08Enumerate(tier string, emit func(*eng.Case)) {
@@ -184,7 +190,7 @@ func init() {
 	eng.Register(&eng.Prop{
 		ID:        "C08",
 		DesignRef: "§5 C08",
-		Rule: "all sequences of body children of length <= 5 (quick) / <= 7 (thorough) over {Pc,Ps,Pb,IMG,FIG,VID,YT,TBLd,UL3}, and of length <= 4 / <= 5 over the nested/odd-media alphabet {Pc,Pb,IMGd1,IMGd3,FIGd2,VIDd1,IMGsm,IMGnd,H}. " +
+		Rule: "all sequences of body children of length <= 5 (quick) / <= 7 (thorough) over {Pc,Ps,Pb,IMG,FIG,VID,YT,TBLd,UL3}, and of length <= 4 / <= 5 over the nested/odd-media alphabet {Pc,Pb,IMGd1,IMGd3,FIGd2,VIDd1,IMGsm,IMGnd,H, bare text followed by a table / an image inside one div}. " +
 			"Oracle: for each medium m of the parsed input with nearest preceding visible word p(m) outside media: kept(p) => kept(m); the media kept without kept(p) are at most one and are images/figures. Non-trivial = >= 1 medium kept and >= 1 dropped.",
 		Enumerate: c08Enumerate,
 		Check:     c08Check,
